@@ -80,7 +80,7 @@ package tar
 // ---- Open ----
 //@ func (fs *ReaderFS) Open(name string) (f hackpadfs.File, err error)
 //@   props C12 C04 C05
-//@   requires fs != nil && fs.unarchiveFS != nil && fs.ps != nil
+//@   requires fs != nil && fs.unarchiveFS != nil && fs.ps != nil && fs.readerCtx != nil
 //@   modifies world()
 //@   ensures "gate" [C04 C05] implies(!VP(name), f == nil && isPathError(err) && pathOf(err) == name && errIs(err, hackpadfs.ErrInvalid) && world() == old(world()))
 //@   ensures "unpack-failed" [C12] implies(VP(name) && recordedErr(fs) != nil, f == nil && isPathError(err) && pathOf(err) == name && opOf(err) == "open" && innerErr(err) == recordedErr(fs) && world() == old(world()))
@@ -186,7 +186,8 @@ package tar
 //@   modifies world(), ghost("G|emitted")
 //@   propagates [C12 C14] readProcessFile
 //@   propagates [C12 C14] Next unless e == io.EOF
-//@   loop 1 invariant "entries-so-far-processed" !failed("readProcessFile") && !failed("Next") && fs != nil && fs.unarchiveFS != nil && fs.ps != nil && fs.callerCtx != nil
+//@   propagates [C12 C14] recv
+//@   loop 1 invariant "entries-so-far-processed" !failed("readProcessFile") && !failed("Next") && !failed("recv") && fs != nil && fs.unarchiveFS != nil && fs.ps != nil && fs.callerCtx != nil
 //@   nopanic
 
 // ---- the outcome of unpacking: a failure of the reader loop is recorded, and the reader is always marked done ----
